@@ -78,6 +78,15 @@ def run(rec, cfg):
             for r in frontier:
                 for label, rule in rules:
                     rule.find_node(r)
+                    if rng.random() < 0.2:
+                        # the list find_nodes hands out is the caller's: emptied, then asked again
+                        try:
+                            lst = rule.find_nodes(r)
+                            lst.clear()
+                            lst.append(None)
+                            rule.find_nodes(r)
+                        except Exception:
+                            pass
                 for label, idx, new_root in D.apply_everywhere(rec, r, rules, rng, cap=5 if depth == 0 else 2):
                     if new_root is not None and not D.too_big(S.shadow(new_root), big):
                         nxt.append(new_root)
